@@ -1749,6 +1749,9 @@ def _dedupe_inlined_runs(tree):
             i = j
         return out
 
+    def stores_of(nm, scope):
+        return sum(1 for x in ast.walk(scope) if isinstance(x, ast.Name) and x.id == nm and isinstance(x.ctx, ast.Store))
+
     for node in ast.walk(tree):
         for fld in ("body", "orelse"):
             block = getattr(node, fld, None)
@@ -1757,7 +1760,9 @@ def _dedupe_inlined_runs(tree):
             changed = True
             while changed:
                 changed = False
-                rs = runs_of(block)
+                # a run is the WHOLE definition of its local: the name is bound nowhere else in the module
+                rs = [r for r in runs_of(block)
+                      if stores_of(r[2], tree) == sum(stores_of(r[2], st) for st in block[r[0]:r[1]])]
                 for a in range(len(rs)):
                     for b in range(a + 1, len(rs)):
                         (i1, j1, n1), (i2, j2, n2) = rs[a], rs[b]
